@@ -67,8 +67,19 @@ def analyse(pre):
                 for k in range(i + 1, len(cl)):
                     adj.add((cl[i], cl[k]))
                     shared.setdefault((cl[i], cl[k]), set()).add(pr)
+    def pinches(p):
+        # contracting it would force some cell to visit the merged vertex twice: the contraction clause and the
+        # cycle clauses of the statement cannot both hold, so such an interface is "already short: unchanged"
+        for cyc in pre["c"].values():
+            if p[0] in cyc and p[1] in cyc:
+                gap = abs(cyc.index(p[0]) - cyc.index(p[1]))
+                if gap != 1 and gap != len(cyc) - 1:
+                    return True
+        return False
+
     contractible = [p for p in interfaces
-                    if len(p) == 2 and ncells.get(p[0], 0) < 3 and ncells.get(p[1], 0) < 3 and p[0] != p[1]]
+                    if len(p) == 2 and ncells.get(p[0], 0) < 3 and ncells.get(p[1], 0) < 3 and p[0] != p[1]
+                    and not pinches(p)]
     pl = [frozenset(p) for p in pre["e"].values()]
     # outside the judged domain: two-vertex cells, parallel or self edges, and mesh edges that lie on
     # no cell cycle (left by a dump whose faces were cut out): resampling rebuilds edges from cycles only
